@@ -39,6 +39,11 @@ CLAIMED.update({
     "C08": dict(_ch("C08", "descriptor forms, depths, table names; tripwires", "DESIGN.md 3/C08"),
                 technique="AST->z3 strings/regex translation of the name validation (decided for all strings) + " + CH,
                 engine="SMT-S+CH"),
+    "C17": _ch("C17", "byte bodies, content types, URL path/query strings, split points, read-chunk sizes; texts from a table", "DESIGN.md 3/C17",
+               "Trusted: as for C02; recording connection, fake response and short-reading rfile obey the contracts of http.client / file.read; zlib; the str->bytes conversion itself is a C boundary (texts by table)."),
+    "C18": _ch("C18", "header values (str/int/bool); block programs x header-name tables", "DESIGN.md 3/C18"),
+    "C19": _ch("C19", "the fault kind of every exchange (13-symbol alphabet) and the per-call tokens; sequences <= 2/3", "DESIGN.md 3/C19",
+               "Trusted: CrossHair, z3, the scripted in-memory socket (blocking-stream model, documented OSError subclasses), token codec stub; CPython's http.client and xmlrpc.client are executed for real, not modelled."),
     "C20": _ch("C20", "field values; ignore-list subsets, handler tables, configured names, positions", "DESIGN.md 3/C20"),
     "C13": _ch("C13", "ids, parameters, mutated Config values; request pairs and Config mutations", "DESIGN.md 3/C13"),
     "C14": _ch("C14", "rpcid, method text, parameter leaves, Fault fields", "DESIGN.md 3/C14"),
